@@ -35,6 +35,7 @@ func init() {
 			{ID: "R08.11", Template: "T-CONSULT", Text: "amd64: no argument register is overwritten after the arguments of a call were placed (genuine defect found and fixed: r11 in indirect tail calls)", Min: 1},
 			{ID: "R08.12", Template: "T-CONSULT", Text: "a Go-callable function object is not built from a host module's (missing) entry preamble (known finding: re-exported host functions panic on the compiler)", Min: 1},
 			{ID: "R08.10", Template: "T-MUSTPASS", Text: "results written by a host function are never masked by the parameter types", Min: 4},
+			{ID: "R08.13", Template: "T-MUSTPASS", Text: "the compiler's Go side zero-extends the 32-bit results of a Go host function before the generated code reads them (genuine defect found and fixed)", Min: 4},
 			{ID: "R08.9", Template: "T-MUSTPASS", Text: "the compiler's Go side zero-extends 32-bit slots before host functions, listeners and Call/CallWithStack callers see them (genuine defect found and fixed)", Min: 7},
 		},
 		Run: runC08,
@@ -46,7 +47,8 @@ func init() {
 			{Name: "uint32-result-via-int", File: "internal/wasm/gofunc.go", Old: "\t\tcase reflect.Uint32, reflect.Uint64, reflect.Uintptr:\n\t\t\tstack[i] = ret.Uint()", New: "\t\tcase reflect.Uint32:\n\t\t\tstack[i] = uint64(int32(ret.Uint()))\n\t\tcase reflect.Uint64, reflect.Uintptr:\n\t\t\tstack[i] = ret.Uint()", Rule: "R08.1", Substr: "result Uint32"},
 			{Name: "amd64-i64-stack-arg-32bit-load", File: "internal/engine/wazevo/backend/isa/amd64/abi_go_call.go", Old: "\t\t\tcase ssa.TypeI32:\n\t\t\t\tload.asMovzxRmR(extModeLQ, mem, v)\n\t\t\tcase ssa.TypeI64:\n\t\t\t\tload.asMov64MR(mem, v)\n", New: "\t\t\tcase ssa.TypeI32, ssa.TypeI64:\n\t\t\t\tload.asMovzxRmR(extModeLQ, mem, v)\n", Rule: "R08.6", Substr: "amd64"},
 			{Name: "arm64-f64-result-32bit-load", File: "internal/engine/wazevo/backend/isa/arm64/abi_go_call.go", Old: "loadIntoReg.asFpuLoad(r.Reg, mode, 64)", New: "loadIntoReg.asFpuLoad(r.Reg, mode, 32)", Rule: "R08.6", Substr: "arm64"},
-			{Name: "host-results-masked-by-param-types", File: "internal/engine/wazevo/call_engine.go", Old: "\t\t\t\tf.Call(ctx, callerModule, s)\n\t\t\t}()\n\t\t\t// Call Listener.After.\n\t\t\tlistener.After(ctx, callerModule, def, s[:len(def.ResultTypes())])", New: "\t\t\t\tf.Call(ctx, callerModule, s)\n\t\t\t}()\n\t\t\t// Call Listener.After.\n\t\t\tclearUpper32Bits(s, def.ParamTypes())\n\t\t\tlistener.After(ctx, callerModule, def, s[:len(def.ResultTypes())])", Rule: "R08.10", Substr: "GoModuleFunctionWithListener"},
+			{Name: "host-results-masked-by-param-types", File: "internal/engine/wazevo/call_engine.go", Old: "\t\t\t\tf.Call(ctx, callerModule, s)\n\t\t\t}()\n\t\t\tclearUpper32Bits(s, def.ResultTypes())\n", New: "\t\t\t\tf.Call(ctx, callerModule, s)\n\t\t\t}()\n\t\t\tclearUpper32Bits(s, def.ParamTypes())\n\t\t\tclearUpper32Bits(s, def.ResultTypes())\n", Rule: "R08.10", Substr: "GoModuleFunctionWithListener"},
+			{Name: "host-results-not-zero-extended", File: "internal/engine/wazevo/call_engine.go", Old: "\t\t\tclearUpper32Bits(s, hostFunctionResultTypes(c.execCtx.goFunctionCallCalleeModuleContextOpaque, index))\n\t\t\t// Back to the native code.", New: "\t\t\t// Back to the native code.", Rule: "R08.13", Substr: "ExitCodeCallGoFunction"},
 			{Name: "results-not-zero-extended", File: "internal/engine/wazevo/call_engine.go", Old: "\t\t\tclearUpper32Bits(paramResultStack, c.resultTypes)\n\t\t\treturn nil\n", New: "\t\t\treturn nil\n", Rule: "R08.9", Substr: "results handed back"},
 			{Name: "host-args-not-zero-extended", File: "internal/engine/wazevo/call_engine.go", Old: "\t\t\tclearUpper32Bits(s, hostFunctionParamTypes(c.execCtx.goFunctionCallCalleeModuleContextOpaque, index))\n\t\t\tfunc() {\n\t\t\t\tif snapshotEnabled {\n\t\t\t\t\tdefer snapshotRecoverFn(c)\n\t\t\t\t}\n\t\t\t\tf.Call(ctx, s)", New: "\t\t\tfunc() {\n\t\t\t\tif snapshotEnabled {\n\t\t\t\t\tdefer snapshotRecoverFn(c)\n\t\t\t\t}\n\t\t\t\tf.Call(ctx, s)", Rule: "R08.9", Substr: "ExitCodeCallGoFunction "},
 			{Name: "reflect-args-cached-on-function", File: "internal/wasm/gofunc.go", Old: "\tvar in []reflect.Value\n\tpLen := tp.NumIn()\n\tif pLen != 0 {\n\t\tin = make([]reflect.Value, pLen)\n", New: "\tin := sharedIn\n\tpLen := tp.NumIn()\n\tif pLen != 0 {\n", Rule: "R08.8", Substr: "callGoFunc", Old2: "var _ api.GoModuleFunction = (*reflectGoModuleFunction)(nil)", New2: "var _ api.GoModuleFunction = (*reflectGoModuleFunction)(nil)\n\nvar sharedIn = make([]reflect.Value, 16)"},
@@ -1213,6 +1215,21 @@ func checkSlotNormalisation(c *core.Ctx, rule9, rule10 string) {
 			}
 			return true
 		})
+		// R08.13: … and they are normalised by the result types before the generated code takes them back
+		if rule10 == "R08.10" {
+			after := false
+			ast.Inspect(cc, func(x ast.Node) bool {
+				if call, ok := x.(*ast.CallExpr); ok && call.Pos() > hostCall {
+					if f := core.Callee(info, call); f != nil && norm[f] && len(call.Args) == 2 && strings.Contains(core.ExprStr(call.Args[1]), "Result") {
+						after = true
+					}
+				}
+				return true
+			})
+			c.Check(after, "R08.13", "arm "+label+": the 32-bit results of the host function are zero-extended before the generated code reads them", cc.Pos(),
+				"the result slots are normalised by the result types after the host call",
+				"the result slots go back to the generated code as the Go function left them: the amd64 trampoline reloads the first integer result with a 64-bit move whatever its type and an i32 is used as a 64-bit index as is, so a host function that leaves bits in the upper half of an i32 result slot makes the guest access memory 4GiB away from the address (the interpreter truncates)")
+		}
 		c.Check(len(bad) == 0, rule10, "arm "+label+": results written by the host function are not masked by the parameter types", cc.Pos(), "no parameter-typed normalisation after the host call",
 			strings.Join(bad, "; ")+": after the host function returned, the slots hold its results; masking them by the parameter types clears the upper half of a 64-bit result that shares its slot with a 32-bit parameter")
 	}
